@@ -1,6 +1,7 @@
 import WcModel.Proofs.CaseClosed
 import WcModel.Proofs.GlobFlags
 import WcModel.Model.FnFlags
+import WcModel.Model.Strip
 import WcModel.Properties.C01
 /-
   C17 — case and platform flags select a consistent matching mode.
